@@ -14,6 +14,11 @@ recording wrappers around its own helper functions) vs PgFdr.C11.stageA / PgFdr.
   FastLFQ:           the pruned sample graph is RECORDED from the implementation and handed to the model
                      as the edge filter (build_graph / prune_graph are not modelled)
 
+FastLFQ graph, not trusted (addendum): the oracle also states, WITHOUT the recorded graph, that on exactly
+consistent data where every pair of samples shares >= minr peptides the LFQ intensities are total*g/sum(g)
+(1e-3) whatever FastLFQ does, and that the graph prune_graph returns is connected whenever the unpruned one is
+(for the recorded graph, for prune_graph(build_graph(.)) on every case's peptide sets, and on graph-only cases).
+
 Oracle (independent statement, Fractions + numpy lstsq) and metamorphic runs of the implementation itself:
 precursor order, x c scaling, renaming experiments, sample permutation (end to end, and — when FastLFQ is
 active — with the recorded graph transported by the permutation).  Relative tolerance 1e-9 (DESIGN §4).
@@ -399,6 +404,86 @@ def check_group_direct(n, group, cutoff, minr, stab, graph, out, gfac=None):
     return None
 
 
+TOL_CONSISTENT = 1e-3  # relative; the statement below holds whatever sample graph FastLFQ uses
+
+
+def check_consistent_all_pairs(n, group, cutoff, minr, stab, out, gfac):
+    """The first sentence of the property, stated WITHOUT the sample graph the implementation used: if the
+    selected intensities are exactly f_p * g_s, every sample is valid and EVERY pair of samples shares
+    >= minr (>= 1) peptides (so the samples are connected by enough shared peptides whichever subset of the
+    pairs FastLFQ keeps, provided it keeps them connected), and no pair falls under large-ratio stabilisation,
+    then LFQ[s] = total * g_s / sum(g) (relative 1e-3).  Returns (hypotheses hold, None or a reason)."""
+    if gfac is None or n < 2 or len(out) != n:
+        return False, None
+    sp = spec(n, group, cutoff, minr, stab, None)  # graph None: all pairs with enough shared peptides
+    if len(sp["valid"]) != n or len(sp["eqs"]) != n * (n - 1) // 2:
+        return False, None
+    if any(e["w"] != 0 for e in sp["eqs"]):
+        return False, None
+    g = [Fraction(x) for x in gfac]
+    for k in sp["keys"]:
+        if len({sp["I"][k][s] / g[s] for s in range(n) if sp["I"][k][s] > 0}) > 1:
+            return False, None
+    G = sum(g)
+    bad = [s for s in range(n) if not close(out[s], fl(sp["total"] * g[s] / G), TOL_CONSISTENT)]
+    if bad:
+        s = bad[0]
+        dev = [(out[x] / fl(sp["total"] * g[x] / G)) if out[x] > 0 else 0.0 for x in range(n)]
+        t = max(range(n), key=lambda x: dev[x])  # the two samples whose ratio is most wrong
+        u = min(range(n), key=lambda x: dev[x])
+        return True, (
+            "consistent data (I = f_p * g_s), every pair of the %d samples shares >= %d peptides: LFQ[%d] = %r, expected "
+            "total*g/sum(g) = %r (%d of %d samples off by more than 1e-3; LFQ ratio of samples %d/%d is %r, sample factors give %r)"
+            % (n, max(minr, 1), s, out[s], fl(sp["total"] * g[s] / G), len(bad), n, t, u,
+               (out[t] / out[u]) if out[u] else float("inf"), fl(g[t] / g[u]))
+        )
+    return True, None
+
+
+def is_connected(nodes, edges):
+    """own breadth-first search (not networkx): do the edges connect all the nodes?"""
+    nodes = list(nodes)
+    if not nodes:
+        return True
+    adj = {v: [] for v in nodes}
+    for u, v in edges:
+        if u in adj and v in adj:
+            adj[u].append(v)
+            adj[v].append(u)
+    seen, todo = {nodes[0]}, [nodes[0]]
+    while todo:
+        for w in adj[todo.pop()]:
+            if w not in seen:
+                seen.add(w)
+                todo.append(w)
+    return len(seen) == len(nodes)
+
+
+def run_prune(samples, min_neighbors=3, avg_neighbors=6):
+    """fastlfq.build_graph + prune_graph on peptide sets; returns (nodes, full edges, pruned nodes, pruned edges)"""
+    from picked_group_fdr.columns import fastlfq
+
+    G = fastlfq.build_graph([set(x) for x in samples])
+    H = fastlfq.prune_graph(G, min_neighbors=min_neighbors, avg_neighbors=avg_neighbors)
+    canon = lambda es: sorted([min(int(u), int(v)), max(int(u), int(v))] for u, v in es)
+    return sorted(int(x) for x in G.nodes), canon(G.edges()), sorted(int(x) for x in H.nodes), canon(H.edges())
+
+
+def check_graph_contract(nodes, full, pnodes, pruned):
+    """fastlfq.prune_graph: 'Graph remains connected' — the pruned graph has the same nodes, only edges of the
+    unpruned graph, and is connected whenever the unpruned graph is."""
+    if pnodes != nodes:
+        return "prune_graph changed the node set %r -> %r" % (nodes, pnodes)
+    fs = {tuple(e) for e in full}
+    extra = [e for e in pruned if tuple(e) not in fs]
+    if extra:
+        return "prune_graph returned an edge %r that the unpruned graph does not have" % (extra[0],)
+    if is_connected(nodes, full) and not is_connected(nodes, pruned):
+        return "the unpruned sample graph is connected but the graph returned by prune_graph is not (%d nodes, %d of %d edges kept)" % (
+            len(nodes), len(pruned), len(full))
+    return None
+
+
 def vec_close(a, b, tol):
     return len(a) == len(b) and all(close(x, y, tol) or (abs(x - y) <= tol * 1e-6) for x, y in zip(a, b))
 
@@ -407,7 +492,7 @@ def vec_close(a, b, tol):
 class P(Prop):
     id = "C11"
     level = "proof"
-    quick_cases = 208
+    quick_cases = 234
     thorough_cases = 5000
     chunk = 13
     rule = (
@@ -416,7 +501,11 @@ class P(Prop):
         "lower intensity / other PEP, PEPs on a grid around the cutoff incl. NaN (match between runs), zero intensities; "
         "min ratio count 1-3, stabilisation on/off, FastLFQ on/off (active from 10 valid samples); every case carries a "
         "precursor shuffle, a sample permutation, a scale factor and a second naming scheme for the metamorphic runs; "
-        "non-trivial = some group has a valid sample pair; distinct by sha1 of the case"
+        "6 % batch-structured cases (2-3 batches of 8-10 samples, factor 12 between batches, one background group of 6-12 "
+        "peptides per batch, a probe group of 3 or 5 exactly consistent peptides over all 16-30 samples, every pair of samples "
+        "sharing >= minr of them, FastLFQ on); 8 % graph-only cases (fastlfq.build_graph / prune_graph on 4-40 peptide sets in "
+        "1-4 clusters, min neighbours 1-5, average 2-9; not modelled); "
+        "non-trivial = some group has a valid sample pair (graph-only: >= 8 samples and edges pruned); distinct by sha1 of the case"
     )
     assumptions = [
         "float sums of the generated integer intensities are exact, so the implementation's intensity matrix and total are the exact rationals",
@@ -430,7 +519,105 @@ class P(Prop):
     ]
 
     # -- generation -----------------------------------------------------------------------------
+    BATCH_SHARE = 0.06
+
+    def gen_batch_case(self, rng):
+        """2-3 batches of 8-10 samples.  One background protein group per batch (6-12 peptides seen only in
+        that batch, so the peptide overlap is much higher inside a batch than between batches and the FastLFQ
+        k-nearest-neighbour / average-degree edges all stay inside the batches) and a probe group with exactly
+        consistent data (I = f_p * g_s) over ALL samples in which every pair of samples shares >= minr
+        peptides; the sample factors differ by a factor 12 per batch.  FastLFQ on."""
+        nb = rng.choice([2, 2, 3])
+        sizes = [rng.choice([8, 8, 9, 10]) for _ in range(nb)]
+        n = sum(sizes)
+        batch_of = [b for b, k in enumerate(sizes) for _ in range(k)]
+        if rng.random() < 0.5:
+            rng.shuffle(batch_of)  # batches interleaved in the sample order
+        g = [12 ** batch_of[s] * rng.randint(50, 200) for s in range(n)]
+        npep = rng.choice([3, 3, 5])
+        minr = rng.choice([1, 2, 2, 3])
+        holes = npep == 5 and rng.random() < 0.5  # each sample may miss one probe peptide: pairs still share >= 3
+        pid = 0
+
+        def name():
+            nonlocal pid
+            pid += 1
+            return "PEP%s" % "ABCDEFGHIJKLMNOPQRSTUVWXYZ"[(pid - 1) % 26] + ("" if pid <= 26 else str((pid - 1) // 26))
+
+        q = rat(Fraction(1, 1000))
+        groups = []
+        for b in range(nb):
+            precs = []
+            noise = rng.random() < 0.5
+            leak = rng.random() < 0.3
+            for _p in range(rng.randint(6, 12)):
+                pep, f = name(), rng.randint(1, 50)
+                for s in range(n):
+                    inb = batch_of[s] == b
+                    if (inb and rng.random() < 0.05) or (not inb and not (leak and rng.random() < 0.03)):
+                        continue
+                    v = f * g[s]
+                    if noise:
+                        v = int(v * math.exp(rng.gauss(0, 0.3))) + 1
+                    precs.append([pep, 2, s, -1, rat(v), q])
+            rng.shuffle(precs)
+            groups.append(precs)
+        probe = []
+        ppeps = [(name(), rng.randint(1, 50)) for _p in range(npep)]
+        hole = {s: rng.randrange(npep) for s in range(n) if holes and rng.random() < 0.4}
+        for k, (pep, f) in enumerate(ppeps):
+            for s in range(n):
+                if hole.get(s) != k:
+                    probe.append([pep, 2, s, -1, rat(f * g[s]), q])
+        rng.shuffle(probe)
+        groups.insert(rng.randint(0, len(groups)), probe)
+        perm = list(range(n))
+        rng.shuffle(perm)
+        sch = rng.sample([0, 1, 3], 2)  # the other two naming schemes repeat names beyond 17 / use odd characters beyond 26 samples
+        return {
+            "n": n,
+            "groups": groups,
+            "cutoff": rat(CUTOFF),
+            "minr": minr,
+            "stab": rng.random() < 0.5,
+            "fast": True,
+            "names": [NAME_SCHEMES[sch[0]](i) for i in range(n)],
+            "g": g,
+            "batches": batch_of,
+            "meta": {
+                "perm": perm,
+                "scale": rat(rng.choice([Fraction(2), Fraction(3), Fraction(1, 2), Fraction(10), Fraction(1, 4)])),
+                "names2": [NAME_SCHEMES[sch[1]](i) for i in range(n)],
+                "shuffle": rng.randint(0, 10**9),
+            },
+        }
+
+    GRAPH_SHARE = 0.08
+
+    def gen_graph_case(self, rng):
+        """fastlfq.build_graph / prune_graph alone: 4-40 samples in 1-4 clusters, every cluster with its own
+        peptide pool (high overlap inside, little or none between), varying min / average neighbour counts"""
+        nc = rng.choice([1, 2, 2, 3, 3, 4])
+        sizes = [rng.choice([1, 2, 4, 7, 8, 8, 9, 10, 12]) for _ in range(nc)]
+        cluster_of = [c for c, k in enumerate(sizes) for _ in range(k)]
+        rng.shuffle(cluster_of)
+        common = ["g%d" % i for i in range(rng.choice([0, 0, 1, 3, 6]))]
+        pools = [["c%d_%d" % (c, i) for i in range(rng.randint(3, 25))] for c in range(nc)]
+        samples = []
+        for c in cluster_of:
+            keep = rng.choice([0.6, 0.9, 1.0])
+            x = [p for p in pools[c] if rng.random() < keep] + [p for p in common if rng.random() < 0.8]
+            if rng.random() < 0.1 and nc > 1:
+                x += rng.sample(pools[(c + 1) % nc], min(2, len(pools[(c + 1) % nc])))
+            samples.append(sorted(set(x)))
+        return {"kind": "graph", "samples": samples, "min_neighbors": rng.choice([1, 2, 3, 3, 3, 5]), "avg_neighbors": rng.choice([2, 4, 6, 6, 6, 9])}
+
     def gen_case(self, rng, tier):
+        r = rng.random()
+        if r < self.BATCH_SHARE:
+            return self.gen_batch_case(rng)
+        if r < self.BATCH_SHARE + self.GRAPH_SHARE:
+            return self.gen_graph_case(rng)
         n = rng.choice([3, 3, 4, 4, 5, 6, 7, 8, 9, 10, 10, 11, 12, 14, 16])
         fast = rng.random() < (0.6 if n >= 10 else 0.3)
         stab = rng.random() < 0.5
@@ -524,6 +711,9 @@ class P(Prop):
         )
 
     def run_impl(self, case):
+        if case.get("kind") == "graph":
+            nodes, full, pnodes, pruned = run_prune(case["samples"], case["min_neighbors"], case["avg_neighbors"])
+            return {"nodes": nodes, "full": full, "pnodes": pnodes, "pruned": pruned}
         n = case["n"]
         outs, rec = self._base(case)
         if len(rec["groups"]) != len(case["groups"]):
@@ -555,6 +745,8 @@ class P(Prop):
     def model_request(self, case, impl_out):
         import numpy as np
 
+        if case.get("kind") == "graph":
+            return None  # build_graph / prune_graph are not modelled: contract checked by the oracle
         n = case["n"]
         graph = impl_out["_rec"]["graph"] if case["fast"] else None
         reqs = []
@@ -661,7 +853,7 @@ class P(Prop):
 
     # -- the property -----------------------------------------------------------------------------
     def _graph_active(self, case, impl_out):
-        if not case["fast"]:
+        if case.get("kind") == "graph" or not case["fast"]:
             return False
         graph = (impl_out or {}).get("_rec", {}).get("graph") if isinstance(impl_out, dict) else None
         for g in case["groups"]:
@@ -673,6 +865,8 @@ class P(Prop):
     def _even_median_flip(self, case, impl_out):
         """some valid pair whose median is not antisymmetric (even number of shared peptides, unequal middle
         ratios, weight of the median > 0) has its orientation flipped by the case's sample permutation"""
+        if case.get("kind") == "graph":
+            return False
         perm = case["meta"]["perm"]
         graph = None
         if case["fast"] and isinstance(impl_out, dict):
@@ -686,6 +880,14 @@ class P(Prop):
 
     def _failures(self, case, impl_out):
         """yields (category, reason) for every part of the property that fails, in a fixed order"""
+        if case.get("kind") == "graph":
+            if not isinstance(impl_out, dict) or "pruned" not in impl_out:
+                yield "graph-contract", "graph-contract: no graph returned: %r" % (impl_out,)
+                return
+            why = check_graph_contract(impl_out["nodes"], impl_out["full"], impl_out["pnodes"], impl_out["pruned"])
+            if why:
+                yield "graph-contract", "graph-contract: %s (min_neighbors=%d, avg_neighbors=%d)" % (why, case["min_neighbors"], case["avg_neighbors"])
+            return
         if not isinstance(impl_out, dict) or "groups" not in impl_out:
             if impl_out is not None:
                 yield "direct", "no LFQ output: %r" % (impl_out,)
@@ -699,6 +901,20 @@ class P(Prop):
             why = check_group_direct(n, g, cutoff, case["minr"], case["stab"], graph, out, case.get("g"))
             if why:
                 yield "direct", "group %d: %s" % (gi, why)
+        # 1b. consistent data, every pair of samples shares enough peptides: proportional to the sample factors
+        #     whatever FastLFQ does (does not use the recorded graph)
+        for gi, (g, out) in enumerate(zip(case["groups"], base)):
+            _, why = check_consistent_all_pairs(n, g, cutoff, case["minr"], case["stab"], out, case.get("g"))
+            if why:
+                yield "consistent-all-pairs", "group %d: %s" % (gi, why)
+        # 1c. graph level: the FastLFQ sample graph is connected whenever the unpruned one is — for the graph
+        #     append_columns used (recorded) and for prune_graph(build_graph(.)) on this case's peptide sets
+        if graph is not None and not is_connected(range(n), graph):
+            yield "graph-contract", "graph-contract: the FastLFQ sample graph used by append_columns does not connect the %d samples (edges %r)" % (n, graph)
+        sets = [sorted({p[0] for g in case["groups"] for p in g if p[2] == s}) for s in range(n)]
+        why = check_graph_contract(*run_prune(sets))
+        if why:
+            yield "graph-contract", "graph-contract: %s; peptide sets per sample %r" % (why, sets)
         meta = case["meta"]
         # 2. precursor order
         rng = random.Random(meta["shuffle"])
@@ -822,11 +1038,25 @@ class P(Prop):
 
     # -- bookkeeping ------------------------------------------------------------------------------
     def nontrivial(self, case, impl_out):
+        if case.get("kind") == "graph":  # pruning removed edges of a graph with at least 8 samples
+            return isinstance(impl_out, dict) and len(impl_out.get("nodes", [])) >= 8 and len(impl_out.get("pruned", [])) < len(impl_out.get("full", []))
         return isinstance(impl_out, dict) and any(g.get("pairs") for g in impl_out.get("groups", []))
 
     def features(self, case, impl_out):
         f = []
+        if case.get("kind") == "graph":
+            k = len(case["samples"])
+            f = ["kind=graph-only", "graph-only:n=%s" % ("4-9" if k <= 9 else "10-19" if k <= 19 else "20-40")]
+            if isinstance(impl_out, dict) and "pruned" in impl_out:
+                zero_overlap = {tuple(e) for e in impl_out["full"] if not set(case["samples"][e[0]]) & set(case["samples"][e[1]])}
+                if any(tuple(e) in zero_overlap for e in impl_out["pruned"]):
+                    f.append("graph-only:bridge-without-shared-peptides-kept")
+                if len(impl_out["pruned"]) < len(impl_out["full"]):
+                    f.append("graph-only:pruned")
+            return f
         n = case["n"]
+        if "batches" in case:
+            f.append("batch-structured")
         f.append("n=%s" % ("3-5" if n <= 5 else "6-9" if n <= 9 else "10-16"))
         f.append("minr=%d" % case["minr"])
         f.append("stab=%s" % case["stab"])
@@ -841,6 +1071,8 @@ class P(Prop):
             f.append("perm-strict")
         graph = impl_out["_rec"]["graph"] if case["fast"] else None
         for g, io in zip(case["groups"], impl_out["groups"]):
+            if check_consistent_all_pairs(n, g, unrat(case["cutoff"]), case["minr"], case["stab"], io["lfq"], case.get("g"))[0]:
+                f.append("group:consistent-all-pairs-statement-applies" + ("[fastlfq-filter-active]" if case["fast"] and n >= MIN_SAMPLES else ""))
             sp = spec(n, g, unrat(case["cutoff"]), case["minr"], case["stab"], graph)
             if not sp["eqs"]:
                 f.append("group:no-pairs")
@@ -862,6 +1094,14 @@ class P(Prop):
         return f
 
     def shrink(self, case):
+        if case.get("kind") == "graph":
+            sm = case["samples"]
+            for i in range(len(sm)):
+                if len(sm) > 2:
+                    yield dict(case, samples=sm[:i] + sm[i + 1 :])
+            for pep in sorted({p for x in sm for p in x}):
+                yield dict(case, samples=[[p for p in x if p != pep] for x in sm])
+            return
         n = case["n"]
         groups = case["groups"]
         focus = case.get("_focus")
@@ -900,6 +1140,8 @@ class P(Prop):
             c = mk(n=n - 1, groups=[[p for p in g if p[2] != s] for g in groups], names=case["names"][:s], g=case["g"][:s])
             c["meta"]["perm"] = np_
             c["meta"]["names2"] = case["meta"]["names2"][:s]
+            if "batches" in case:
+                c["batches"] = case["batches"][:s]
             yield c
         # drop whole peptides, then single precursors
         for gi, g in enumerate(groups):
